@@ -309,14 +309,52 @@ theorem parse_err_cases (i : BindIn) (e : Err) (herr : (parseBody i).err = some 
         cases herr
         exact ⟨⟨h, t, rfl, rfl, Or.inl rfl⟩, by simp [Ready, hre]⟩
 
-/-- The unmarshaller is XML exactly when the Content-Type mentions "xml" and not "json";
-everything else (including no Content-Type at all) goes to JSON. -/
+/-- The unmarshaller is XML exactly when the Content-Type mentions "xml" and not "json" — in any
+letter case; everything else (including no Content-Type at all) goes to JSON. -/
 theorem codec_xml_iff (ct : Req.Proto.Bytes) :
-    codecFor ct = .xml ↔ hasSub sJson ct = false ∧ hasSub sXml ct = true := by
+    codecFor ct = .xml ↔ isJSONType ct = false ∧ isXMLType ct = true := by
   unfold codecFor
-  cases hasSub sJson ct <;> cases hasSub sXml ct <;> simp
+  cases isJSONType ct <;> cases isXMLType ct <;> simp
+
+theorem lowerB_idem (b : UInt8) : lowerB (lowerB b) = lowerB b := by
+  unfold lowerB
+  by_cases h : 65 ≤ b ∧ b ≤ 90
+  · have h2 : ¬ (65 ≤ b + 32 ∧ b + 32 ≤ 90) := by
+      obtain ⟨h1, h2⟩ := h
+      rw [UInt8.le_iff_toNat_le] at h1 h2
+      intro ⟨_, h4⟩
+      rw [UInt8.le_iff_toNat_le] at h4
+      have : (b + 32).toNat = b.toNat + 32 := by
+        rw [UInt8.toNat_add]; simp at h1 h2 ⊢; omega
+      simp at h1 h2 h4; omega
+    simp [h, h2]
+  · simp [h]
+
+theorem lowerBytes_idem (ct : Req.Proto.Bytes) : lowerBytes (lowerBytes ct) = lowerBytes ct := by
+  unfold lowerBytes
+  rw [List.map_map]
+  apply List.map_congr_left
+  intro b _
+  exact lowerB_idem b
+
+/-- **codec_case_insensitive** — the choice of the unmarshaller does not depend on the letter
+case of the Content-Type: a value and its lower-cased form select the same one (media types are
+case-insensitive, RFC 9110 8.3.1; /repo f13c292). -/
+theorem codec_case_insensitive (ct : Req.Proto.Bytes) : codecFor (lowerBytes ct) = codecFor ct := by
+  unfold codecFor isJSONType isXMLType
+  rw [lowerBytes_idem]
+
+/-- two values that differ in letter case only select the same unmarshaller -/
+theorem codec_same_of_same_lower (a b : Req.Proto.Bytes) (h : lowerBytes a = lowerBytes b) : codecFor a = codecFor b := by
+  unfold codecFor isJSONType isXMLType; rw [h]
 
 example : codecFor [116, 101, 120, 116, 47, 120, 109, 108] = .xml ∧ codecFor [] = .json
     ∧ codecFor [120, 109, 108, 43, 106, 115, 111, 110] = .json := by decide
+
+/-- "application/XML", "TEXT/Xml" → xml; "Application/JSON" → json; "xml+JSON" → json -/
+example : codecFor [97, 112, 112, 108, 105, 99, 97, 116, 105, 111, 110, 47, 88, 77, 76] = .xml
+    ∧ codecFor [84, 69, 88, 84, 47, 88, 109, 108] = .xml
+    ∧ codecFor [65, 112, 112, 108, 105, 99, 97, 116, 105, 111, 110, 47, 74, 83, 79, 78] = .json
+    ∧ codecFor [120, 109, 108, 43, 74, 83, 79, 78] = .json := by decide
 
 end Req.Props.C18
